@@ -283,6 +283,10 @@ partial def renderKw : Kw → Str × String
   | .oneOf js => (lit "oneOf", jarr (renderList js))
   | .allOf js => (lit "allOf", jarr (renderList js))
   | .not j => (lit "not", renderJS j)
+  | .types ts => (lit "type", jarr (ts.map (fun t => "\"" ++ typeText t ++ "\"")))
+  | .format n _ => (lit "format", quote n)
+  | .ref j => (lit "$ref", renderJS j)
+  | .other n => (n, "true")
 
 partial def renderList : JSList → List String
   | .nil => []
